@@ -290,6 +290,17 @@ pub fn decorate_role(rng: &mut Rng, r: &mut crate::session::Replica) {
         plan.nested_at = Some(rng.below(plan.cuts.len() + 2));
         pre.push_str("reentrant-");
     }
+    if rng.pct(10) && !r.steps.is_empty() {
+        // slow byte source: seconds, minutes, hours or more than a day of simulated time pass inside one delivery
+        let k = rng.below(r.steps.len());
+        let plan = &mut r.steps[k].plan;
+        if plan.slice {
+            *plan = crate::simreader::Plan::whole();
+        }
+        plan.delay_at = Some(rng.below(plan.cuts.len() + 2));
+        plan.delay_secs = *rng.pick(&[11u64, 61, 3_601, 86_401, 2_678_401]);
+        pre.push_str("slow-");
+    }
     if !pre.is_empty() {
         r.role = format!("{pre}{}", r.role);
     }
@@ -311,6 +322,9 @@ pub fn count_decorations(s: &crate::session::Session, ctr: &mut Ctr) {
         }
         if r.role.contains("reentrant") {
             bump(ctr, "fault.replica_with_reentrant_byte_source");
+        }
+        if r.role.contains("slow-") {
+            bump(ctr, "fault.replica_with_slow_source_simulated_time_jump");
         }
         if r.role.contains("parking") {
             bump(ctr, "fault.replica_parked_mid_document_while_next_runs");
